@@ -5,6 +5,7 @@ package main
 import (
 	"bytes"
 	"fmt"
+	"sort"
 	"strconv"
 	"strings"
 
@@ -505,6 +506,7 @@ func buildSeeds() []string {
 		withCL("POST /all HTTP/1.1\r\nHost: h\r\nContent-Type: multipart/form-data; boundary=X\r\n", "--X\r\nContent-Disposition: form-data; name=\"a\"\r\n\r\nb\r\n--X--\r\n"),
 		"HEAD /all HTTP/1.0\r\nHost: h\r\nConnection: keep-alive\r\nExpect: 100-continue\r\n\r\n",
 	}
+	sort.SliceStable(s, func(i, j int) bool { return len(s[i]) < len(s[j]) })
 	return s
 }
 
